@@ -1543,7 +1543,8 @@ every step satisfies `StepOKC` in the state it starts from:
   (`C05_load_pending_false_fill`);
 * `get_or_insert`: the same two no-fill hypotheses; `remove` / `take`: `NoDependentOnC` (`NoDependentOn`
   with the part on the channel asked only of cached keys other than the removed one; necessary:
-  `C05_remove_breaks_settled`, `C05_remove_pending_breaks_settled`); the read-only operations: nothing;
+  `C05_remove_breaks_settled` — with the channel drained the two coincide, `NoDependentOnC.drained` —,
+  `C05_remove_pending_breaks_settled`); the read-only operations: nothing;
 * reloader steps: `PassOK` as in `C05_static_history_partial`.
 Every `StaticHist` is such a history (`C05_history_with_clear_extends`). Not covered here: `load_owned`
 (`C05_history_with_load_owned_partial`), edits.
@@ -1618,6 +1619,39 @@ example :
     (runH 10 exClearHistory ({}, {})).1.lookup kb = some ⟨.int 11, true, 0, false, 3⟩ ∧
     settledB (exEnv [1, 0] [10]) 10 (runH 10 exClearHistory ({}, {})).1 (runH 10 exClearHistory ({}, {})).2.graph = true := by
   decide
+
+/-- `load b` (loads `e`), the switch to static mode, `clear`, `load e`, a notification for `e.s`: the pass of
+the notification is sorted from a graph that still has the typed node of `b` — an asset that is gone -/
+def exClearStaticHistory : List (Env × HOp) :=
+  [(exEnv [1, 0] [10], .api (.load kb)), (exEnv [1, 0] [10], .enhance), (exEnv [1, 0] [10], .api .clear),
+   (exEnv [1, 0] [10], .api (.load ke)), (exEnv [1, 0] [10], .notify [.file "e" "s"])]
+
+theorem exClearStaticHistory_ok :
+    HistP (StepOKC (exEnv [1, 0] [10]) 10) (exEnv [1, 0] [10]) 10 exClearStaticHistory ({}, {}) :=
+  .cons _ _ _ (StepOKC.load (loadOKC_of_check (by decide)))
+    (.cons _ _ _ (StepOK.of_idle rfl (by decide)).toC
+      (.cons _ _ _ StepOKC.clear
+        (.cons _ _ _ (StepOKC.load (loadOKC_of_check (by decide)))
+          (.cons _ _ _ (StepOK.of_pass rfl
+            (PassOK.of_checks exRank2 (by decide) (by decide) (by decide) (by decide) (by decide))).toC (.nil _)))))
+
+/-- **Non-vacuity** with a pass after the `clear` (static mode): the reload list of the notification is `e`, `b`
+— `b` is registered but not cached any more, `reload` skips it —, and everything is settled when
+`handle_events` returns; the `Clear` and the registration of `e` were taken by that step. -/
+example :
+    Settled (exEnv [1, 0] [10]) 10 (runH 10 exClearStaticHistory ({}, {})).1 (runH 10 exClearStaticHistory ({}, {})).2.graph ∧
+    (runH 10 (exClearStaticHistory.take 4) ({}, {})).1.out = [.clear, .addAsset ke [.file "e" "s"]] ∧
+    (updateSteps (exEnv [1, 0] [10]) 10
+      (prePass (.notify [.file "e" "s"]) (runH 10 (exClearStaticHistory.take 4) ({}, {}))).1
+      (prePass (.notify [.file "e" "s"]) (runH 10 (exClearStaticHistory.take 4) ({}, {}))).2).map (·.key) = [ke, kb] ∧
+    (runH 10 exClearStaticHistory ({}, {})).1.lookup kb = none ∧
+    ((runH 10 exClearStaticHistory ({}, {})).2.graph.get (.asset kb)).map (·.typed) = some true ∧
+    (runH 10 exClearStaticHistory ({}, {})).1.lookup ke = some ⟨.int 10, true, 1, true, 2⟩ :=
+  have h := C05_history_with_clear_partial (exEnv [1, 0] [10]) (exEnv_steady _ _) 10 exClearStaticHistory
+    exClearStaticHistory_ok
+    [(exEnv [1, 0] [10], .api (.load kb)), (exEnv [1, 0] [10], .enhance), (exEnv [1, 0] [10], .api .clear),
+     (exEnv [1, 0] [10], .api (.load ke))] (.notify [.file "e" "s"]) [] rfl rfl
+  ⟨h.1, by decide, by decide, by decide, by decide, by decide⟩
 
 /-- **The hypothesis of the earlier history theorems is too strong after a `clear`**: in that history the
 second `load b` violates `NoPendingKeyFilled` (it fills `e`, which the STALE registration of `b` lists
